@@ -1,5 +1,5 @@
 """C02 -- primal output is a feasible, self-consistent worst-case instance."""
-from . import pepsolve, translate, wrappers, c16, mosekprog
+from . import pepsolve, translate, wrappers, c16, mosekprog, solveprog
 
 LEVEL = "other"
 EXPLANATION = ("Lock-step leaf creation (index taken, counter incremented, object registered) and post-solve assignment of every registered leaf at its "
@@ -19,6 +19,7 @@ def run(ctx):
     pepsolve.r_primalflow(ctx)
     wrappers.r_lmienc(ctx)
     mosekprog.r_solve_call(ctx)
+    solveprog.r_solve_program(ctx, {"primal"})
     wrappers.r_mainvars(ctx)
     wrappers.r_trilorder(ctx)
     ctx.floor("decomposition consumers", ctx.analysed.get("decomposition consumers", 0), 4)
